@@ -503,6 +503,15 @@ func ruleSplit(c *Ctx) {
 			if munch == "" {
 				continue
 			}
+			if strings.HasSuffix(munch, "regexp match") {
+				// (LEFTMOST) comparing the END of the match with len(data) settles whether this match can still grow;
+				// it does not settle whether it is the match at all: the regexp package returns the leftmost match
+				// in the bytes it is given, and an alternative that starts EARLIER (or is preferred at the same
+				// start) but needs bytes that have not arrived yet is invisible to it. Nothing the Find* result
+				// offers can rule that out, so a record delivered from such a match before end of input depends on
+				// where the reads fell.
+				c.bad(fmt.Sprintf("leftmost:%s", name), t.ret.Pos(), "%s commits the leftmost regexp match found in the bytes read so far while more input may follow: with an RS whose alternatives overlap (RS=\"abcd|b\"), a longer alternative that starts earlier and is still incomplete at the end of the buffered data is overtaken by a shorter one inside it, so the records and RT depend on read boundaries (`xabc`+`dy` gives xa/RT=b, unchunked gives x/RT=abcd)", name)
+			}
 			key := fmt.Sprintf("munch:%s:record-return#%d", name, i+1)
 			ak := srcKey(a, 0)
 			found := false
